@@ -67,6 +67,12 @@ func (m *Model) livenessLits(gs []Lit) (bool, string, []Lit) {
 // expression: the load itself, or the call of the accessor that performs it). A test made
 // before the lock is taken says nothing about the state inside the critical section.
 func (m *Model) readsUnderLock(l Lit, f *ssa.Function, la *LockAnalysis, lock string) (bool, ssa.Instruction) {
+	return m.readsUnderLockAt(l, f, la, lock, nil)
+}
+
+// readsUnderLockAt: as readsUnderLock; with a use point `at` the reads made in at's function must
+// also belong to the lock hold that is current at `at` (no release between the read and the use).
+func (m *Model) readsUnderLockAt(l Lit, f *ssa.Function, la *LockAnalysis, lock string, at ssa.Instruction) (bool, ssa.Instruction) {
 	found, okAll := false, true
 	var bad ssa.Instruction
 	var walk func(s *Sym)
@@ -82,6 +88,9 @@ func (m *Model) readsUnderLock(l Lit, f *ssa.Function, la *LockAnalysis, lock st
 				if !must[lock+"/W"] && !must[lock+"/R"] {
 					okAll = false
 					bad = x
+				} else if at != nil && x.Parent() == at.Parent() && !m.sameHold(x, at, lock) {
+					okAll = false
+					bad = x
 				}
 				return
 			case *ssa.UnOp:
@@ -89,6 +98,9 @@ func (m *Model) readsUnderLock(l Lit, f *ssa.Function, la *LockAnalysis, lock st
 					found = true
 					must := la.MustBefore(x)
 					if !must[lock+"/W"] && !must[lock+"/R"] {
+						okAll = false
+						bad = x
+					} else if at != nil && x.Parent() == at.Parent() && !m.sameHold(x, at, lock) {
 						okAll = false
 						bad = x
 					}
@@ -259,7 +271,7 @@ func checkC02(c *Ctx) {
 			gs := m.unitGuards(unit, in)
 			live, how, lits := m.livenessLits(gs)
 			for _, l := range lits {
-				if ok, at := m.readsUnderLock(l, unit, la, m.path(m.Mu)); !ok {
+				if ok, at := m.readsUnderLockAt(l, unit, la, m.path(m.Mu), in); !ok {
 					live = false
 					how = fmt.Sprintf("%s, but %s is read outside the critical section (at %s)", how, clip(l.S.String(), 80), c.posOf(at))
 				}
